@@ -460,7 +460,12 @@ func (c *Conn) handleMail(arg string) {
 		}
 	}
 
-	if err := c.Session().Mail(from, opts); err != nil {
+	session := c.Session()
+	if session == nil {
+		// The connection was closed under the handler (Server.Close).
+		return
+	}
+	if err := session.Mail(from, opts); err != nil {
 		c.writeError(451, EnhancedCode{4, 0, 0}, err)
 		return
 	}
@@ -772,7 +777,12 @@ func (c *Conn) handleRcpt(arg string) {
 		}
 	}
 
-	if err := c.Session().Rcpt(recipient, opts); err != nil {
+	session := c.Session()
+	if session == nil {
+		// The connection was closed under the handler (Server.Close).
+		return
+	}
+	if err := session.Rcpt(recipient, opts); err != nil {
 		c.writeError(451, EnhancedCode{4, 0, 0}, err)
 		return
 	}
@@ -980,8 +990,13 @@ func (c *Conn) handleData(arg string) {
 		return
 	}
 
+	session := c.Session()
+	if session == nil {
+		// The connection was closed under the handler (Server.Close).
+		return
+	}
 	r := newDataReader(c)
-	code, enhancedCode, msg := dataErrorToStatus(c.Session().Data(r))
+	code, enhancedCode, msg := dataErrorToStatus(session.Data(r))
 	r.limited = false
 	io.Copy(ioutil.Discard, r) // Make sure all the data has been consumed
 	c.writeResponse(code, enhancedCode, msg)
@@ -1262,15 +1277,20 @@ func (s *statusCollector) SetStatus(rcptTo string, err error) {
 }
 
 func (c *Conn) handleDataLMTP() {
+	session := c.Session()
+	if session == nil {
+		// The connection was closed under the handler (Server.Close).
+		return
+	}
 	r := newDataReader(c)
 	status := c.createStatusCollector()
 
 	done := make(chan bool, 1)
 
-	lmtpSession, ok := c.Session().(LMTPSession)
+	lmtpSession, ok := session.(LMTPSession)
 	if !ok {
 		// Fallback to using a single status for all recipients.
-		err := c.Session().Data(r)
+		err := session.Data(r)
 		r.limited = false
 		io.Copy(ioutil.Discard, r) // Make sure all the data has been consumed
 		for _, rcpt := range c.recipients {
